@@ -229,7 +229,7 @@ def match_attr(ctx, el, a):
 
 def _cmp(ctx, a, op, v):
     s = a['val']
-    flag = a.get('flag')
+    flag = ascii_lower(a.get('flag') or '') or None   # the flag itself is an ASCII case-insensitive identifier
     insensitive = False
     if flag == 'i':
         insensitive = True
